@@ -37,7 +37,8 @@ def describe(tier):
                 "/ time conditions only). Oracle: flatten(resolved tree) == flatten(parse(R6(expr))) where R6 is the textual bracketed "
                 "substitution and the parse uses the real parser with both flags off (I3: only U/O/X runs are flattened, juxtaposition is "
                 "compared exactly); exactly one package level is expanded; any occurrence of a missing package => NotImplementedError. "
-                "Also through expand_packages / expand_time_conditions called directly. Non-trivial = >= 2 abbreviations in the string.",
+                "Also through expand_packages / expand_time_conditions called directly, and (5 expressions with 2-3 package occurrences x 3 "
+                "tables) under ALL completion orders of a package resolver that really suspends (virtual event loop). Non-trivial = >= 2 abbreviations in the string.",
         "bounds": BOUNDS[tier],
         "exhaustive": True,
         "assumptions": ["I3: same-operator regrouping is unspecified (C01), hence the flattening of U/O/X runs"],
@@ -65,9 +66,17 @@ def _strings(tier):
                 yield ("n4", S.render(tmpl, atoms=list(atoms)))
 
 
+ORDER_EXPRS = ["[1P] U [2P]", "[1P0..1] U ([2P] O [3P])", "([1P][901]) X [2P] X [1P]", "Muss [1P] Soll [2P] U [3P]", "[3P] O [1P]"]
+
+
 def plan(tier, seed):
     parts = 96 if tier == "quick" else 1024
-    return [{"tier": tier, "part": p, "parts": parts} for p in range(parts)]
+    items = [{"tier": tier, "part": p, "parts": parts} for p in range(parts)]
+    # package resolvers that really suspend: ALL completion orders on the virtual event loop (E3)
+    for e in range(len(ORDER_EXPRS)):
+        for table in (1, 2, 3):
+            items.append({"fam": "orders", "expr": e, "table": table, "early": 0 if tier == "quick" else 1})
+    return items
 
 
 _I = None
@@ -133,10 +142,62 @@ def check_case(expr, table, fp, ft, direct=False):
     return out
 
 
+def _orders_setup(item):
+    import json
+
+    from mc import vloop
+
+    if _I is None:
+        worker_init()
+    I = _I
+    expr = ORDER_EXPRS[item["expr"]]
+    pk = TABLES[item["table"]]
+    sub = R6.substitute(expr, pk, True, True)
+    want = repr(_flat(I.run(I.parse_expression_including_unresolved_subexpressions(sub, resolve_packages=False,
+                                                                                    replace_time_conditions=False), I.Env())))
+
+    def factory(sched):
+        async def y(kind, key):
+            await sched.point(f"{kind}:{key}")
+
+        env = I.Env(packages=pk, yielder=y)
+
+        async def main():
+            I.ENV.set(env)
+            t = await I.parse_expression_including_unresolved_subexpressions(expr, resolve_packages=True, replace_time_conditions=True)
+            return repr(_flat(t))
+
+        return main()
+
+    def observe(ex):
+        return json.dumps(["exception", type(ex.exception).__name__] if ex.exception is not None else ex.result)
+
+    return vloop, factory, observe, json.dumps(want), expr, pk, sub
+
+
+def _run_orders(item, r):
+    vloop, factory, observe, want, expr, pk, sub = _orders_setup(item)
+    exp = vloop.explore(factory, observe, order_bound=None, early_bound=item["early"])
+    r.evaluations += exp.schedules
+    r.states += exp.decision_points
+    r.transitions += exp.decision_points
+    r.traces += exp.schedules
+    r.nontrivial += max(0, len(exp.completion_traces) - 1)
+    r.stat("schedules", exp.schedules)
+    for out in exp.outcomes:
+        if out != want:
+            r.violation("not-the-substituted-tree/completion-order", {"orders": item, "choices": exp.first_schedule_of_outcome[out]},
+                        want[:400], out[:400], f"{expr} with {pk}: expected the tree of {sub!r} whatever order the package resolver answers in")
+    r.sample({"expr": expr, "packages": pk, "schedules": exp.schedules})
+    return r
+
+
 def run_item(item):
     if _I is None:
         worker_init()
     r = Result()
+    if item.get("fam") == "orders":
+        return _run_orders(item, r)
     for i, (fam, expr) in enumerate(_strings(item["tier"])):
         if i % item["parts"] != item["part"]:
             continue
@@ -172,4 +233,9 @@ def run_item(item):
 
 
 def replay(case):
+    if "orders" in case:
+        vloop, factory, observe, want, expr, pk, sub = _orders_setup(case["orders"])
+        out = observe(vloop.run_schedule(factory, case["choices"]))
+        return [] if out == want else [{"kind": "not-the-substituted-tree/completion-order", "case": case, "expected": want[:400],
+                                         "observed": out[:400]}]
     return check_case(case["expr"], case["table"], case["resolve_packages"], case["replace_time_conditions"], case.get("direct", False))
